@@ -1,7 +1,7 @@
 """C03 timers — typestate "queued <=> !m_expired" and the structural parts of
 the timer contract."""
 import q, engines, handlers
-from simlib import is_node, strip_targs
+from simlib import is_node, strip_targs, walk
 
 EXPLANATION = ('C03: decides the timer typestate (a timer is in the simulation\'s sorted queue exactly when m_expired is false: every removal is paired with '
                'm_expired=true on all paths and every m_expired=false with an insertion), that the sort key never changes while queued (cancel precedes the write of '
@@ -143,6 +143,12 @@ def sortedness_rules(run):
     for name in ('expires_at', 'expires_after'):
         fn = fx.fn1(T + '::' + name)
         run.touch(fn)
+        # accepted idiom: one re-arm function delegates to the other on every path and returns its count
+        sib = T + '::' + ('expires_at' if name == 'expires_after' else 'expires_after')
+        dl = [c for c in fn.calls() if q.callee_name(c) == sib]
+        if dl and q.on_all_paths(fn, dl) and all(is_node(r.get('e')) and any(x is d for d in dl for x in walk(r['e'])) for r in q.returns(fn)):
+            run.ok('R4', 'rearm-delegates', T + '::' + name, fn.loc(), 'delegates to %s on every path and returns its count' % sib.split('::')[-1])
+            continue
         keyw = [a.site for a in q.field_accesses(fn, {T + '::m_expiration_time'}) if a.kind == 'assign']
         cancels = calls(fn, 'high_resolution_timer::cancel')
         run.check(bool(keyw) and all(q.any_precedes(fn, cancels, w) for w in keyw), 'R4', 'cancel-before-key-write', T + '::' + name, fn.loc(),
